@@ -5,9 +5,11 @@
     mon <wire-ev>* | <res>*
         the Spec monitor on a chronological wire log and per-call results
         -> ok | bad X=<0|1> S=<0|1> O=<0|1> C=<0|1>
-    run <xl> <nextSeq> <sessSeq> <calls:cmd>,<calls:cmd>,… <ka ticks|-> <closer tid|-> <join 0|1> | <tid:act>*
+    rq <wire-ev>*
+        clause (Q): consecutive transmissions carry different IPMB request sequence numbers -> 0 | 1
+    run <xl> <nextSeq> <sessSeq> <calls:cmd>,<calls:cmd>,… <ka ticks|-> <closer tid|-> <join 0|1> <seqLocked 0|1> | <tid:act>*
         trace validation: replay a logged access sequence in the Model (application threads in the
-        order given, the keep-alive thread last; variant `join`)
+        order given, the keep-alive thread last; variants `join`, `seqLocked`)
         -> ok wire <wire-ev>* res <res>* mon <0|1> done <0|1> act <0|1>
          | reject <index> expected <act|none>
 
@@ -96,13 +98,17 @@ def handleC14 (line : String) : String :=
       if accepts wire rs then "ok"
       else s!"bad X={b01 (exchangesOk wire)} S={b01 (seqIncreasing wire)} O={b01 (ownReply wire rs)} C={b01 (closeLast wire)}"
     | _, _ => "bad-op"
-  | "run" :: xl :: ns :: ss :: thr :: ka :: closer :: join :: rest =>
+  | "rq" :: w =>
+    match w.mapM parseWEv with
+    | some wire => b01 (rqDistinct wire)
+    | none => "bad-op"
+  | "run" :: xl :: ns :: ss :: thr :: ka :: closer :: join :: sl :: rest =>
     let (_, tr) := splitBar rest
     match xl.toNat?, ns.toNat?, ss.toNat?, parseThreads thr, parseOptNat ka, parseOptNat closer, join.toNat?,
-        tr.mapM parseTAct with
-    | some xl, some ns, some ss, some thr, some ka, some closer, some join, some tr =>
+        sl.toNat?, tr.mapM parseTAct with
+    | some xl, some ns, some ss, some thr, some ka, some closer, some join, some sl, some tr =>
       match replay (init { nextSeq := ns, sessSeq := ss, xl := xl, threads := thr, ka := ka, closer := closer,
-                           join := join != 0 }) tr with
+                           join := join != 0, seqLocked := sl != 0 }) tr with
       | .ok s =>
         let done := s.thr.all fun th => th.pc == .done || th.pc == .kaWait
         "ok wire " ++ " ".intercalate (s.wireChron.map showWEv) ++ " res " ++
@@ -110,7 +116,7 @@ def handleC14 (line : String) : String :=
           s!" mon {b01 (accepts s.wireChron s.results)} done {b01 done} act {b01 s.activated}"
       | .error (i, l) =>
         s!"reject {i} expected " ++ (match l with | some a => showAct a | none => "none")
-    | _, _, _, _, _, _, _, _ => "bad-op"
+    | _, _, _, _, _, _, _, _, _ => "bad-op"
   | _ => "bad-op"
 
 def main : IO Unit := do
